@@ -197,6 +197,8 @@ def index_fields():
 # arrays whose bounds are enforced by the hand-written special logic of mj_validateReferences rather than by the table
 SPECIAL_COVERED = {"geom_dataid", "eq_obj1id", "eq_obj2id", "wrap_objid", "actuator_trnid", "sensor_objid", "sensor_refid",
                    "tuple_objid", "hfield_adr", "sensor_adr"}
+# count arrays whose value the engine uses while the loader validates the address with a size derived elsewhere
+COUNT_ARRAYS = {"sensor_dim"}
 # type / selector arrays the special logic switches on (corrupted by the "type" class)
 TYPE_ARRAYS = ["jnt_type", "geom_type", "geom_condim", "eq_type", "eq_objtype", "wrap_type", "actuator_trntype", "sensor_type",
                "sensor_objtype", "sensor_reftype", "sensor_dim", "pair_signature", "exclude_signature", "tuple_objtype"]
@@ -229,6 +231,20 @@ class Image:
             off += n
         self.total = off
         self.ptr = {p["name"]: p for p in info["ptrs"]}
+
+    def region(self, off):
+        """name of the header / size / blob / array containing byte `off`"""
+        if off < self.hdr:
+            return "header"
+        if off < self.blob_off[0]:
+            return self.info["sizes"][(off - self.hdr) // self.info["sizeSz"]]
+        for (n, _), o, ln in zip(self.info["blobs"], self.blob_off, self.blob_len):
+            if o <= off < o + ln:
+                return n
+        for n, o in self.arr_off.items():
+            if o <= off < o + self.arr_n[n]:
+                return n
+        return "end"
 
     def ints(self, name):
         i = [p["name"] for p in self.info["ptrs"]].index(name)
@@ -429,7 +445,7 @@ def corruption_cases(ctx, info, img, thorough, fields, table_rows, canonical_res
     for _ in range(300 if thorough else 60):
         k = rng.choice((1, 1, 2, 4, 8))
         o = rng.randrange(0, img.total - k)
-        case("random", "@%d" % o, "w%d:%s" % (o, "".join("%02x" % rng.randrange(256) for _ in range(k))))
+        case("random", img.region(o), "w%d:%s" % (o, "".join("%02x" % rng.randrange(256) for _ in range(k))), "@%d" % o)
     # insertions / deletions
     for _ in range(20 if thorough else 6):
         o = rng.randrange(img.hdr, img.total)
@@ -598,7 +614,7 @@ def classify(ctx, case, model_out, impl_out, covered, mdl_idx, desc, fails, note
         elif arr in covered and v == -1:
             fail("c31:minus-one-with-count-accepted", "the loader accepted %s (address -1 with a non-empty range; every row of the table accepts -1)%s"
                  % (oob, tail))
-        elif arr in covered and cls in ("ref", "type") and field != arr:
+        elif arr in covered and cls in ("ref", "type", "random") and field != arr and field in COUNT_ARRAYS:
             fail("c31:unvalidated-count-array:%s" % field, "the loader accepted %s %s, which makes %s: %s is validated with a size derived elsewhere, "
                  "the engine uses %s%s" % (field, case["note"], oob, arr, field, tail))
         elif arr in covered:
